@@ -23,13 +23,19 @@ Inductive case :=
 
 Definition face_rows (fs : list face) : list (list nat) := map (fun f => [fget f 0; fget f 1; fget f 2]) fs.
 
-(* magnitude of the input data: a cut vertex is obtained by cancellation, its rounding error is relative to it *)
+(* magnitude of the input data: a cut vertex is obtained by cancellation, its rounding error is relative to it.  No absolute
+   floor: meshes of size 1e-12 are compared as strictly (relative to their size) as meshes of size 1 *)
 Definition vmag (v : vec3 Q) : Q := Qmax' (Qabs (vx v)) (Qmax' (Qabs (vy v)) (Qabs (vz v))).
 Definition mesh_mag (vs : list (vec3 Q)) (ref : vec3 Q) : Q :=
-  fold_left (fun m p => Qmax' m (vmag p)) vs (Qmax' 1 (vmag ref)).
+  fold_left (fun m p => Qmax' m (vmag p)) vs (vmag ref).
+Definition close_rel (mag a b : Q) : bool :=
+  Qle_bool (Qabs (a - b)) (tol * Qmax' mag (Qmax' (Qabs a) (Qabs b))).
+Definition fl_close_rel (mag m : Q) (o : fl) : bool := match o with Fin q => close_rel mag m q | _ => false end.
+Definition vec_close_rel mag (m : vec3 Q) (o : list fl) : bool := all2 (fl_close_rel mag) (vlist m) o.
+Definition vecs_close_rel mag (m : list (vec3 Q)) (o : list (list fl)) : bool := all2 (vec_close_rel mag) m o.
 
 Definition check_obs (mag : Q) (m : mesh_out Q) (o : obs) : bool :=
-  vecs_close_mag mag (mo_v m) (ob_v o) &&
+  vecs_close_rel mag (mo_v m) (ob_v o) &&
   all2 nat_list_eqb (face_rows (mo_f m)) (ob_f o) &&
   match ob_map o with None => true | Some mp => nat_list_eqb (mo_map m) mp end &&
   Nat.eqb (ob_vcols o) 3 && Nat.eqb (ob_fcols o) 3 && ob_ndims_ok o &&
